@@ -116,8 +116,10 @@ macro_rules! guarded {
             Err(_) => {
                 $run.count("clean_panics", 1);
                 let msg = crate::last_panic();
-                if crate::is_ub_or_overflow_panic(&msg) {
+                if crate::is_ub_check_panic(&msg) {
                     $run.violation("ub-panic", &format!("C19/{}", crate::panic_sig(&msg)), format!("{} {} :: {}", $what, $desc, msg));
+                } else if crate::is_ub_or_overflow_panic(&msg) {
+                    $run.count("overflow_panics_on_invalid_input", 1);
                 }
                 None
             }
@@ -375,8 +377,10 @@ where
         Err(_) => {
             run.count("clean_panics", 1);
             let msg = crate::last_panic();
-            if crate::is_ub_or_overflow_panic(&msg) {
+            if crate::is_ub_check_panic(&msg) {
                 run.violation("ub-panic", &format!("C19/{}", crate::panic_sig(&msg)), format!("{what} {desc} :: {msg}"));
+            } else if crate::is_ub_or_overflow_panic(&msg) {
+                run.count("overflow_panics_on_invalid_input", 1);
             }
         }
     }
